@@ -144,8 +144,13 @@ pub fn profile_for(prop: &str, thorough: bool) -> Profile {
         }
         "C10" => {
             p.max_len = if thorough { 20 } else { 12 };
+            // valid but deliberately non-Delaunay meshes are where the walk can cycle: plausible
+            // flip handles half of the time, and the pinwheel family among the inputs
+            p.legal_bias_permille = 500;
+            p.embedded_k2_permille = 700;
+            p.families = &["grid", "dyadic", "jitter", "cosph", "pinwheel", "pinwheel", "dyadic"];
             p.tune = Some(|w, _r, d| {
-                w.k2 = 16;
+                w.k2 = 30;
                 w.k3 = if d >= 3 { 8 } else { 1 };
                 w.remove = 14;
             });
